@@ -252,8 +252,13 @@ impl Check for C04 {
                             return false;
                         }
                     }
-                    // clause 2: the header bytes on their own
+                    // clause 2: the header bytes on their own. In the runs that have other
+                    // connections (§3.9), somebody else's calls come in between.
                     let h_owned = h.to_vec();
+                    if sc.recycled.is_some() || !sc.neighbors.is_empty() {
+                        crate::recv::perturb();
+                        st.hit("fault:calls_for_others_between_parses");
+                    }
                     match parse(entry, &h_owned) {
                         Err(_) => {
                             panicked = true;
